@@ -919,6 +919,141 @@ class C04(Prop):
 
 
 REGISTRY["C04"] = C04()
+
+
+# =========================================================================== C05
+def drv(ctx, cases):
+    vlib.run_impl(ctx.bin, cases)
+    return [c.result for c in cases]
+
+
+NOISE_NAME = b"Noise_X_25519_ChaChaPoly_SHA256"
+PROLOGUE_KEY = bytes([0x65, 0x67, 0x6b, 0x10])
+
+
+def reference_key_file(ctx, e, epk, s_or_none, spk, rpk, payload, P, es_override=None, ss_override=None):
+    """An INDEPENDENT writer of the documented key-file format, assembled from the library's exported primitives
+    (sha256, hkdf_noise, Noise AEAD, X25519, HKDF) step by step through the driver; overrides allow forged handshakes."""
+    sha = lambda m: drv(ctx, [Case("sha256", m=m)])[0]["out"]
+    h0 = NOISE_NAME + bytes(32 - len(NOISE_NAME))
+    ck = h0
+    h = sha(h0 + PROLOGUE_KEY)
+    h = sha(h + rpk)
+    h = sha(h + epk)
+    if es_override is not None:
+        dh1 = es_override
+    else:
+        r1 = drv(ctx, [Case("x25519", k=e, u=rpk)])[0]
+        if r1["code"] != 0:
+            return None
+        dh1 = r1["out"]
+    o = drv(ctx, [Case("hkdfn", ck=ck, ikm=dh1)])[0]["out"]
+    ck, k = o[:32], o[32:]
+    c1 = drv(ctx, [Case("nseal", key=k, n=0, ad=h, x=spk)])[0]["out"]
+    h = sha(h + c1)
+    if ss_override is not None:
+        dh2 = ss_override
+    else:
+        r2 = drv(ctx, [Case("x25519", k=s_or_none, u=rpk)])[0]
+        if r2["code"] != 0:
+            return None
+        dh2 = r2["out"]
+    o = drv(ctx, [Case("hkdfn", ck=ck, ikm=dh2)])[0]["out"]
+    ck, k = o[:32], o[32:]
+    c2 = drv(ctx, [Case("nseal", key=k, n=0, ad=h, x=payload)])[0]["out"]
+    hh = sha(h + c2)
+    fk = drv(ctx, [Case("hkdf", salt=b"", ikm=payload, info=hh, n=32)])[0]["out"]
+    body = drv(ctx, [Case("enc_chunks", key=fk, aad=b"", cs=65536, data=P)])[0]["out"]
+    return PROLOGUE_KEY + epk + c1 + c2 + body
+
+
+class C05(Prop):
+    id = "C05"
+    rule = ("cases: files written by the real encryptor and by an independent reference writer (assembled from the exported "
+            "primitives) for every combination of private key used / public key claimed / recipient addressed; decryption "
+            "with wrong recipient private key, wrong recipient public key, both; all low-order and non-canonical-low-order "
+            "X25519 points (14 encodings) as recipient for encryption, as ephemeral key and as claimed sender key (with the "
+            "all-zero secret an attacker would have to use) in forged files; header splices are in C03; non-trivial = every "
+            "case except the two honest reference files")
+    assumptions = ["X25519 symmetry and hardness (CDH), key separation of HKDF are not proved",
+                   "that every low-order point yields the all-zero output for every scalar is exercised, not proved"]
+
+    def cases(self, ctx):
+        rng = ctx.rng
+        (s, spk), (r, rpk), (e, epk), (s2, spk2), (r2, rpk2) = keypairs(ctx, 5)
+        P = ctx.rbytes(37)
+        out = []
+
+        def accept(who):
+            def f(res):
+                if res["code"] != 0 or res["out"] != P:
+                    return ("an honest file decrypts to the plaintext", res["outcome"])
+                if res["extra"] != who:
+                    return ("the reported sender is the key that took part in creating the file", "sender=" + res["extra"].hex())
+                return None
+            return f
+
+        def reject(res):
+            if res["code"] == 0:
+                return ("rejected: the file was not created for this recipient by the claimed sender",
+                        "ok sender=%s out=%s" % (res["extra"].hex(), res["out"].hex()))
+            if res["code"] == 1 or res["code"] >= 900:
+                return ("an error value, never a panic", res["outcome"])
+            if res["out"]:
+                return ("a rejected file releases nothing", "out=" + res["out"].hex())
+            return None
+        # 1. reference writer, honest: validates the writer and the format
+        F_ref = reference_key_file(ctx, e, epk, s, spk, rpk, ctx.rbytes(32), P)
+        out.append(Case("key_dec", r=r, rpk=rpk, data=F_ref, oracle=accept(spk), tags=["reference-writer", "trivial"]))
+        # real encryptor, honest
+        enc = Case("key_enc", s=s, spk=spk, r=rpk, e=e, epk=epk, pk=ctx.rbytes(32), data=P, oracle=ok_only("honest encryption succeeds"), tags=["trivial"])
+        drv(ctx, [enc])
+        F = enc.result["out"]
+        out.append(enc)
+        out.append(Case("key_dec", r=r, rpk=rpk, data=F, oracle=accept(spk), tags=["honest", "trivial"]))
+        # 2. wrong recipient private / public / both
+        out.append(Case("key_dec", r=r2, rpk=rpk, data=F, oracle=reject, tags=["wrong-recipient-private"]))
+        out.append(Case("key_dec", r=r, rpk=rpk2, data=F, oracle=reject, tags=["wrong-recipient-public"]))
+        out.append(Case("key_dec", r=r2, rpk=rpk2, data=F, oracle=reject, tags=["wrong-recipient-pair"]))
+        # 3. sender claims a public key that does not match the private key used (real encryptor and reference writer)
+        for claim in (spk2, rpk, epk):
+            m = Case("key_enc", s=s, spk=claim, r=rpk, e=e, epk=epk, pk=ctx.rbytes(32), data=P, tags=["mismatched-claim-enc"])
+            drv(ctx, [m])
+            out.append(m)
+            if m.result["code"] == 0:
+                out.append(Case("key_dec", r=r, rpk=rpk, data=m.result["out"], oracle=reject, tags=["mismatched-claim"]))
+            Fm = reference_key_file(ctx, e, epk, s, claim, rpk, ctx.rbytes(32), P)
+            out.append(Case("key_dec", r=r, rpk=rpk, data=Fm, oracle=reject, tags=["mismatched-claim-ref"]))
+        # the sender used someone else's private key but claims spk
+        Fx = reference_key_file(ctx, e, epk, s2, spk, rpk, ctx.rbytes(32), P)
+        out.append(Case("key_dec", r=r, rpk=rpk, data=Fx, oracle=reject, tags=["wrong-private-used"]))
+        # 4. low-order points
+        lows = [bytes.fromhex(x) for x in C19.LOW_ORDER]
+        if not ctx.thorough():
+            lows = lows[:7] + rng.sample(lows[7:], 3)
+        zeros = bytes(32)
+
+        def refused(res):
+            if res["code"] != 40:
+                return ("encryption to a key forcing an all-zero shared secret is refused (Key exchange failed)", res["outcome"])
+            if res["out"] or any(t[0] in (3, 4, 5, 6) for t in res["trace"]):
+                return ("a refused encryption writes nothing", "out=%s trace=%s" % (res["out"].hex(), res["trace"]))
+            return None
+        for u in lows:
+            out.append(Case("key_enc", s=s, spk=spk, r=u, e=e, epk=epk, pk=ctx.rbytes(32), data=P, oracle=refused, tags=["low-order-recipient"]))
+            out.append(Case("noise_enc", s=s, spk=spk, r=u, e=e, epk=epk, prologue=PROLOGUE_KEY, payload=ctx.rbytes(32),
+                            oracle=(lambda res: None if res["code"] == 83 else ("noise_encrypt refuses a low-order recipient", res["outcome"])),
+                            tags=["low-order-recipient-noise"]))
+            # forged files: low-order ephemeral (ES secret would be zero) and low-order claimed sender (SS secret zero)
+            Fe = reference_key_file(ctx, e, u, s, spk, rpk, ctx.rbytes(32), P, es_override=zeros)
+            out.append(Case("key_dec", r=r, rpk=rpk, data=Fe, oracle=reject, tags=["low-order-ephemeral"]))
+            Fs = reference_key_file(ctx, e, epk, None, u, rpk, ctx.rbytes(32), P, ss_override=zeros)
+            out.append(Case("key_dec", r=r, rpk=rpk, data=Fs, oracle=reject, tags=["low-order-sender"]))
+        return out
+
+
+REGISTRY["C05"] = C05()
+
 import props_cli  # noqa: E402,F401  (registers C12..C17)
 import props_misc  # noqa: E402
 props_misc.register(REGISTRY)
